@@ -9,7 +9,7 @@ from vf.gen import SeedSource
 from vf.lang import show, typeof, walk
 from vf.props.c02 import gen_case as gen_program
 
-FOLLOWUPS = ["align", "reduce_add", "reduce_logaddexp", "reduce_max", "subs0", "add_self", "exp", "neg", "to_data", "sample", "compile", "adjoint", "optimizer", "getitem", "sum_out", "rename", "slice", "pickle", "scatter", "scatter", "blocks"]
+FOLLOWUPS = ["align", "reduce_add", "reduce_logaddexp", "reduce_max", "subs0", "add_self", "exp", "neg", "to_data", "sample", "compile", "adjoint", "optimizer", "getitem", "sum_out", "rename", "slice", "pickle", "scatter", "scatter", "blocks", "linalg", "linalg"]
 
 
 def gen_case(seed):
@@ -251,6 +251,57 @@ class C20(Prop):
                 bm[k : 2 * k, k : 2 * k] = held_m
                 bm[0:k, 0:k] = held_m * 0.5 if case["rng"] % 2 else held_m
                 return Tensor(np.concatenate([out_v.reshape(-1), bm.as_tensor().reshape(-1)]))
+            if op == "linalg":
+                # the array-level linear algebra behind Gaussians, called on monitored matrices the caller holds -
+                # including degenerate ones (v v^T is singular, the factorisation fails or needs a fallback there)
+                from funsor import Real, Reals
+                from funsor.gaussian import Gaussian
+
+                vecs = [a[0].reshape(-1)[:4] for a in leaves.arrays if a[0].dtype == float and a[0].size >= 2][:2]
+                if not vecs:
+                    vecs = [np.array([1.0, -2.0, 0.5])]
+                done = 0
+                for v in vecs:
+                    k = v.size
+                    flavour = (case["rng"] + done) % 4
+                    m0 = np.outer(v, v)  # singular
+                    if flavour == 1:
+                        m0 = m0 + np.eye(k)  # well conditioned
+                    elif flavour == 2:
+                        m0 = np.stack([m0 + np.eye(k), m0])  # a batch with one degenerate member
+                    elif flavour == 3:
+                        m0 = m0 - 1e-9 * np.eye(k)  # slightly indefinite
+                    batch = m0.shape[:-2]
+                    bnames = tuple(("zz_b%d" % i_, n_) for i_, n_ in enumerate(batch))
+                    mat = leaves.make(("ten", bnames, (k, k), "real", tuple(float(x_) for x_ in m0.reshape(-1)), False))
+                    vec = leaves.make(("ten", bnames, (k,), "real", tuple(float(x_) for x_ in np.broadcast_to(v, batch + (k,)).reshape(-1)), False))
+                    ins = OrderedDict((n_, Bint[sz]) for n_, sz in bnames)
+                    ins_x = OrderedDict(list(ins.items()) + [("zz_x", Reals[k])])
+                    calls = [
+                        lambda: ops.cholesky(mat),
+                        lambda: ops.cholesky(Tensor(mat, ins)),
+                        lambda: Gaussian(info_vec=vec, precision=mat, inputs=ins_x),
+                        lambda: Gaussian(mean=vec, covariance=mat, inputs=ins_x),
+                        lambda: Gaussian(mean=vec, precision=mat, inputs=ins_x),
+                        lambda: ops.cholesky_inverse(mat),
+                        lambda: ops.cholesky_solve(vec[..., None], mat),
+                        lambda: ops.triangular_solve(vec[..., None], mat),
+                        lambda: ops.triangular_inv(mat),
+                        lambda: ops.logsumexp(mat, -1),
+                        lambda: ops.qr(mat),
+                    ]
+                    for c_ in calls:
+                        try:
+                            out_ = c_()
+                            if hasattr(out_, "_precision"):
+                                out_._precision, out_._covariance, out_.log_normalizer  # lazily cached factorisations
+                            stt.count("linalg-call-completed")
+                        except Exception as e:
+                            if isinstance(e, ValueError) and ("read-only" in str(e) or "readonly" in str(e) or "not writeable" in str(e)):
+                                readonly_error[0] = f"linalg: {e} @ {innermost_funsor_frame(e)}"
+                            stt.count("linalg-call-raised")
+                    done += 1
+                return Number(done)
             return None
 
         for op in case["followups"]:
